@@ -163,8 +163,14 @@ class MaterialFile(BaseMaterial):
         """
         c = self.coefficients
         try:
-            n = c[0] + c[1]*w**c[2] / (w**2 - c[3]**c[4]) + \
-                c[5]*w**c[6] / (w**2 - c[7]**c[8])
+            # a resonance term whose coefficient is zero is absent: it must
+            # not contribute 0/0 where w**2 equals its (unused) pole, e.g.
+            # 0**0 = 1 at w = 1
+            n = c[0]
+            if c[1] != 0:
+                n = n + c[1]*w**c[2] / (w**2 - c[3]**c[4])
+            if c[5] != 0:
+                n = n + c[5]*w**c[6] / (w**2 - c[7]**c[8])
             for k in range(9, len(c), 2):
                 n += c[k]*w**c[k+1]
             return np.sqrt(n)
